@@ -71,6 +71,8 @@ def run_rules(prop, tier, seed, ev, jobs):
         if v == "sat":
             w = r["witness"]
             kf = known.get((r["type"], code)) if code else None
+            if kf is not None and "outside the recorded deviation" in q:
+                kf = None          # a deviation outside the recorded region is a different violation
             if kf is not None and prop in kf.get("properties", ["C04"]):
                 print("KNOWN-FINDING: property=%s %s: %s" % (prop, kf["key"], kf["description"]), flush=True)
                 ev.known.append({"key": kf["key"], "why": w.get("why")})
